@@ -284,12 +284,15 @@ Theorem py_mw_parse_eq s :
   py_mw_parse lower_c threshold min_len max_len t s = mw_parse lower_c threshold min_len max_len m s.
 Proof.
   unfold py_mw_parse, mw_parse.
-  destruct (len s <? min_len); cbn [bind run]; [reflexivity|].
-  destruct (max_len <=? len s); cbn [bind run]; [reflexivity|].
-  rewrite (py_mw_get_count_eq lower_c t m) by assumption. cbn [call].
-  destruct (threshold <=? mw_count lower_c m s); cbn [bind run]; [reflexivity|].
-  destruct (len s <? min_len * 2); cbn [bind run]; [reflexivity|].
-  rewrite py_mw_identify_multi_eq.
+  (* the tests in the order of the source, however they are grouped into `if`s *)
+  repeat (rewrite ?(py_mw_get_count_eq lower_c t m) by assumption;
+          cbn [call bind run negb orb andb];
+          match goal with
+          | |- context [if ?c then _ else _] =>
+              lazymatch c with context [truthy] => fail | _ => bool_atom c ltac:(fun a => destruct a eqn:?) end
+          end;
+          cbn [call bind run negb orb andb]; try reflexivity).
+  rewrite ?py_mw_identify_multi_eq.
   destruct (identify (S (length s)) m s) as [[[|x res]|]|]; reflexivity.
 Qed.
 
